@@ -146,6 +146,15 @@ func FakeRawPut(dir string, key, value []byte) {
 	s.mu.Unlock()
 }
 
+// FakeRawPutCF stores a key in the named column family ("default" or "dead_nodes") without counting as a write
+// (used to plant damaged / foreign records).
+func FakeRawPutCF(dir, cf string, key, value []byte) {
+	s := getStore(dir)
+	s.mu.Lock()
+	s.cf(cf)[string(key)] = append([]byte(nil), value...)
+	s.mu.Unlock()
+}
+
 func (s *store) cf(name string) map[string][]byte {
 	m, ok := s.cfs[name]
 	if !ok {
